@@ -10,6 +10,7 @@ import (
 	"encoding/hex"
 	"fmt"
 	"io"
+	"sort"
 	"sync"
 
 	"go.opentelemetry.io/collector/consumer/consumertest"
@@ -94,11 +95,28 @@ type walker struct {
 	list     map[string]bool
 	targeted int
 	kept     int
+	// targeted strings that came out unchanged, with where it happened: the
+	// substitution may have fixed points, so this is only suspicious - it is
+	// settled by probing the same instance with the string in a position that
+	// is certainly targeted (see probeUnchanged)
+	unchanged map[string]string
+}
+
+func (w *walker) noteUnchanged(in, out, where string) {
+	if in == out && len(in) > 0 && len(w.unchanged) < 64 {
+		if w.unchanged == nil {
+			w.unchanged = map[string]string{}
+		}
+		if _, ok := w.unchanged[in]; !ok {
+			w.unchanged[in] = where
+		}
+	}
 }
 
 func (w *walker) str(targeted bool, in, out, where string) string {
 	if targeted {
 		w.targeted++
+		w.noteUnchanged(in, out, where)
 		return w.m.observe("string", in, out, where)
 	}
 	w.kept++
@@ -510,6 +528,21 @@ func Verdict(c *Case) (msg string, st Stats) {
 				return fmt.Sprintf("document %d: %s", i, m), st
 			}
 		}
+		if strs := sortedKeys(w.unchanged); len(strs) > 0 {
+			td := ptrace.NewTraces()
+			for _, x := range strs {
+				td.ResourceSpans().AppendEmpty().Resource().Attributes().PutStr(probeKey(c.List), x)
+			}
+			if err := p.ConsumeTraces(ctx, td); err != nil {
+				return "probe: " + err.Error(), st
+			}
+			out := sink.AllTraces()[len(c.Docs)]
+			if m := w.checkProbe(strs, func(i int) (pcommon.Value, bool) {
+				return firstValue(out.ResourceSpans().At(i).Resource().Attributes())
+			}); m != "" {
+				return m, st
+			}
+		}
 	case "logs":
 		sink := &consumertest.LogsSink{}
 		var p interface {
@@ -536,6 +569,21 @@ func Verdict(c *Case) (msg string, st Stats) {
 			}
 			if m := w.logs(orig, outs[i]); m != "" {
 				return fmt.Sprintf("document %d: %s", i, m), st
+			}
+		}
+		if strs := sortedKeys(w.unchanged); len(strs) > 0 {
+			ld := plog.NewLogs()
+			for _, x := range strs {
+				ld.ResourceLogs().AppendEmpty().Resource().Attributes().PutStr(probeKey(c.List), x)
+			}
+			if err := p.ConsumeLogs(ctx, ld); err != nil {
+				return "probe: " + err.Error(), st
+			}
+			out := sink.AllLogs()[len(c.Docs)]
+			if m := w.checkProbe(strs, func(i int) (pcommon.Value, bool) {
+				return firstValue(out.ResourceLogs().At(i).Resource().Attributes())
+			}); m != "" {
+				return m, st
 			}
 		}
 	default:
@@ -566,8 +614,63 @@ func Verdict(c *Case) (msg string, st Stats) {
 				return fmt.Sprintf("document %d: %s", i, m), st
 			}
 		}
+		if strs := sortedKeys(w.unchanged); len(strs) > 0 {
+			md := pmetric.NewMetrics()
+			for _, x := range strs {
+				md.ResourceMetrics().AppendEmpty().Resource().Attributes().PutStr(probeKey(c.List), x)
+			}
+			if err := p.ConsumeMetrics(ctx, md); err != nil {
+				return "probe: " + err.Error(), st
+			}
+			out := sink.AllMetrics()[len(c.Docs)]
+			if m := w.checkProbe(strs, func(i int) (pcommon.Value, bool) {
+				return firstValue(out.ResourceMetrics().At(i).Resource().Attributes())
+			}); m != "" {
+				return m, st
+			}
+		}
 	}
 	return "", st
+}
+
+func sortedKeys(m map[string]string) []string {
+	out := make([]string, 0, len(m))
+	for k := range m {
+		out = append(out, k)
+	}
+	sort.Strings(out)
+	return out
+}
+
+func firstValue(m pcommon.Map) (v pcommon.Value, ok bool) {
+	m.Range(func(_ string, x pcommon.Value) bool { v, ok = x, true; return false })
+	return
+}
+
+// probeDoc builds, for each suspicious string, one resource whose single
+// attribute holds the string in a position that is certainly targeted: the
+// value of an attribute whose key is listed (list mode) or any key
+// (encrypt_all).
+func probeKey(list []string) string {
+	if len(list) > 0 {
+		return list[0]
+	}
+	return "probe"
+}
+
+// checkProbe compares what the instance substituted for the probes with what
+// it did where the string was left unchanged.
+func (w *walker) checkProbe(strs []string, outAt func(i int) (pcommon.Value, bool)) string {
+	for i, sIn := range strs {
+		v, ok := outAt(i)
+		if !ok || v.Type() != pcommon.ValueTypeStr {
+			return fmt.Sprintf("probe for %q: attribute missing or of another type in the output", sIn)
+		}
+		if v.Str() != sIn {
+			return fmt.Sprintf("%s: targeted string %q was left unchanged here, but the same instance replaces it by %q as a plain attribute value (equal inputs must give equal outputs)", w.unchanged[sIn], sIn, v.Str())
+		}
+	}
+	return ""
 }
 
 // substituteOfKey returns what the processor instance with this key seed
